@@ -304,6 +304,31 @@ m('pooluaf-solver-q','C10',['POOL-UAF'],'constraint/bls12-381/solver.go','''	err
 	err := f(q, inputs, outputs)
 ''',note='modulus big.Int released to the shared pool before the hint function runs (double release later is harmless for the rule)')
 m('optrelax-mux','C14',['OPT-RELAX'],'std/selector/multiplexer.go','''	selBits := bits.ToBinary(api, sel, bits.WithNbDigits(nbBits)) // binary decomposition ensures sel < 2^nbBits''','''	selBits := bits.ToBinary(api, sel, bits.WithNbDigits(nbBits), bits.WithUnconstrainedOutputs()) // binary decomposition ensures sel < 2^nbBits''',note='selector bits no longer constrained boolean by the decomposition')
+m('statereset-mv-vals','C11',['STATE-RESET'],'std/math/emulated/field_mul.go','''	for i := range mc.vals {
+		mc.vals[i].evaluation = 0
+		mc.vals[i].isEvaluated = false
+	}
+	mc.r.evaluation = 0''','''	mc.r.evaluation = 0''',note='mvCheck no longer clears the evaluations cached on its input elements')
+edit('std/math/emulated/field_mul.go',[('''	mc.a.evaluation = 0
+	mc.a.isEvaluated = false
+	mc.b.evaluation = 0
+	mc.b.isEvaluated = false
+	mc.r.evaluation = 0
+	mc.r.isEvaluated = false
+	mc.k.evaluation = 0
+	mc.k.isEvaluated = false
+	mc.c.evaluation = 0
+	mc.c.isEvaluated = false
+	if mc.p != nil {
+		mc.p.evaluation = 0
+		mc.p.isEvaluated = false
+	}''','''	for _, e := range []*Element[T]{mc.a, mc.b, mc.r, mc.k, mc.c, mc.p} {
+		if e != nil {
+			e.evaluation = 0
+			e.isEvaluated = false
+		}
+	}''')])
+save('benign-statereset-loop','C11','std/math/emulated/field_mul.go','cleanEvaluations rewritten as a loop over all six elements')
 json.dump({'comment':'selftest mutants: each patch breaks one rule instance and must be detected by the listed rule(s) of its property; produced by tools/make_selftest.py','mutants':M}, open(os.path.join(root,'selftest','mutants.json'),'w'), indent=1)
 subprocess.run(['git','-C','/repo','worktree','remove','--force',WT],capture_output=True)
 print(len(M),'mutants')
